@@ -13,5 +13,5 @@ CONSTANTS
   Emit = FALSE
 VIEW View
 CONSTRAINT Bound
-PROPERTY WritesLocal
+ACTION_CONSTRAINT StepProps
 CHECK_DEADLOCK FALSE
